@@ -246,6 +246,8 @@ def gen_wrapper_dst(rng, thorough):
     for _ in range(200):
         zone = rng.choice(DST_ZONES)
         year = rng.choice([rng.randint(1950, 2189), rng.randint(1972, 2030), rng.randint(1990, 2025)])
+        if zone.startswith("dateutil/"):             # dateutil does not extrapolate the rules after 2037
+            year = rng.randint(1972, 2037)
         tr = zone_transitions(zone, year)
         if not tr:
             continue
@@ -296,8 +298,13 @@ def gen_wrapper_dst(rng, thorough):
             continue
         if (sec[-1] - sec[0]) // P > 600:
             continue
-        inst = [int(x) for x in idx[np.array(keep, dtype=bool)].asi8]
+        kept = idx[np.array(keep, dtype=bool)]
+        inst = [int(x) for x in kept.asi8]
         if any(b < a for a, b in zip(inst, inst[1:])):     # instants must be non-decreasing as well
+            continue
+        # pandas must agree with itself on the offsets (array path: wall clock - instant; scalar path:
+        # Timestamp.utcoffset) - it does not for dateutil zones after 2037
+        if any(int(t.utcoffset().total_seconds()) != w - i for t, w, i in zip(kept, sec, inst)):
             continue
         vals = gen_values(rng, len(sec))
         return dict(level="wrapper", P=P, rain=rain, maxgap=maxgap, unit=unit, tz=zone, amb=amb,
